@@ -36,15 +36,15 @@ func chanCap(rel, recv, name, elem string) int {
 
 func factsC12() {
 	emitNat("f_consumer_cap", chanCap("bus/server.go", "server", "handle", "net.Message"))
-	emitNat("f_mailbox_cap", chanCap("bus/mailbox.go", "", "NewMailBox", "Mail"))
+	emitNat("f_c12_mailbox_cap", chanCap("bus/mailbox.go", "", "NewMailBox", "Mail"))
 	// serviceImpl.Receive: the mailbox is looked up under RLock, the blocking send happens after RUnlock
-	emitStr("f_service_Receive", lockSkeleton("bus/service.go", "serviceImpl", "Receive", "SendError"))
-	emitStr("f_router_Receive", lockSkeleton("bus/router.go", "Router", "Receive", "Receive", "SendError"))
+	emitStr("f_service_Receive", c13LockSkeleton("bus/service.go", "serviceImpl", "Receive", "SendError"))
+	emitStr("f_router_Receive", c13LockSkeleton("bus/router.go", "Router", "Receive", "Receive", "SendError"))
 	// endpoint: dispatch and RemoveHandler run under handlersMutex; dispatch writes the "consumer blocked" error itself
-	emitStr("f_endpoint_dispatch", lockSkeleton("bus/net/endpoint.go", "endPoint", "dispatch", "e.Send", "closeWith"))
-	emitStr("f_endpoint_RemoveHandler", lockSkeleton("bus/net/endpoint.go", "endPoint", "RemoveHandler", "closeWith"))
-	emitStr("f_endpoint_closeWith", lockSkeleton("bus/net/endpoint.go", "endPoint", "closeWith", "closeWith", "stream.Close"))
-	emitStr("f_mailbox_loop", lockSkeleton("bus/mailbox.go", "", "NewMailBox", "r.Receive"))
+	emitStr("f_endpoint_dispatch", c13LockSkeleton("bus/net/endpoint.go", "endPoint", "dispatch", "e.Send", "closeWith"))
+	emitStr("f_endpoint_RemoveHandler", c13LockSkeleton("bus/net/endpoint.go", "endPoint", "RemoveHandler", "closeWith"))
+	emitStr("f_endpoint_closeWith", c13LockSkeleton("bus/net/endpoint.go", "endPoint", "closeWith", "closeWith", "stream.Close"))
+	emitStr("f_mailbox_loop", c13LockSkeleton("bus/mailbox.go", "", "NewMailBox", "r.Receive"))
 	// the stubs: every argument decoding site answers with an error; nothing panics
 	for _, st := range []struct{ name, rel string }{{"object", "bus/object_stub_gen.go"}, {"directory", "bus/directory/directory_stub_gen.go"}} {
 		src, err := os.ReadFile(filepath.Join(repo, st.rel))
